@@ -150,6 +150,7 @@ type input struct {
 	Blocked  int   `json:"blocked"` // run whose first handler blocks (-1 none)
 	Stall    bool  `json:"stall"`   // hold the reader between unlock and wait while a message arrives
 	Hold     int   `json:"hold,omitempty"` // keep the blocked handler blocked for this many ms after every other run has finished
+	Backlog  int   `json:"backlog,omitempty"` // messages injected for the blocked run behind its blocked handler
 }
 
 type obs struct {
@@ -248,6 +249,21 @@ func run(raw json.RawMessage) lib.Case {
 					Msg: &Ping{Run: k, ID: blockedMsgID, Work: -1}, MsgType: network.MessageType(&Ping{}), Size: 8}, nil)
 			}()
 			wg.Wait()
+			if in.Backlog > 0 {
+				// a long queue behind the blocked handler: accepting must stay immediate whatever its length
+				expected += in.Backlog
+				wg.Add(1)
+				go func() {
+					defer wg.Done()
+					tok := p.Token()
+					child := tree.Root.Children[0]
+					for j := 0; j < in.Backlog; j++ {
+						rootOv.TransmitMsg(&onet.ProtocolMsg{
+							From: tok.ChangeTreeNodeID(child.ID), To: tok, ServerIdentity: child.ServerIdentity,
+							Msg: &Ping{Run: k, ID: 600000 + j, Work: 0}, MsgType: network.MessageType(&Ping{}), Size: 8}, nil)
+					}
+				}()
+			}
 		}
 		want[k] = expected
 		// children feed over their own connections
@@ -277,7 +293,20 @@ func run(raw json.RawMessage) lib.Case {
 			}()
 		}
 	}
-	wg.Wait()
+	// the feeders hand over and return; one that does not (an accept that waits for a handler) is
+	// left behind and shows as messages that other instances did not get during the block
+	fed := make(chan struct{})
+	go func() { wg.Wait(); close(fed) }()
+	feederStuck := false
+	select {
+	case <-fed:
+	case <-time.After(20 * time.Second):
+		feederStuck = true
+	}
+	sent := make([]int, in.Runs)
+	for k := range sent {
+		sent[k] = want[k]
+	}
 	// everything except the blocked instance must finish while the block lasts
 	wantOthers := map[int]int{}
 	for k, w := range want {
@@ -350,7 +379,7 @@ func run(raw json.RawMessage) lib.Case {
 	if in.Blocked >= 0 {
 		blocked = fmt.Sprintf("(Some %d)", in.Blocked)
 	}
-	coq := fmt.Sprintf("mkCase %d %s %s %s", in.Runs, lib.List(items), lib.NatList(must), blocked)
+	coq := fmt.Sprintf("mkCase %d %s %s %s %s", in.Runs, lib.List(items), lib.NatList(must), blocked, lib.NatList(sent))
 	head := items
 	if len(head) > 24 {
 		head = head[:24]
@@ -367,6 +396,12 @@ func run(raw json.RawMessage) lib.Case {
 	}
 	if in.Hold > 0 {
 		class += "-longhold"
+	}
+	if in.Backlog > 0 {
+		class += "-backlog"
+	}
+	if feederStuck {
+		class += "+feederstuck"
 	}
 	// the scenario was reached only if every expected message was at least accepted
 	reached := true
@@ -413,6 +448,9 @@ func generate(rng *rand.Rand, tier string) []interface{} {
 		if in.Runs >= 2 && rng.Intn(2) == 0 {
 			in.Blocked = rng.Intn(in.Runs)
 		}
+		if in.Blocked >= 0 && rng.Intn(3) == 0 {
+			in.Backlog = 80 + rng.Intn(240)
+		}
 		in.Stall = rng.Intn(2) == 0
 		ins = append(ins, in)
 	}
@@ -426,6 +464,9 @@ func corpus() []interface{} {
 		input{Servers: 5, Runs: 1, PerChild: 8, Local: 16, Feeders: 4, Work: []int{100}, Blocked: -1},
 		input{Servers: 3, Runs: 2, PerChild: 2, Local: 2, Feeders: 1, Work: []int{0}, Blocked: -1, Stall: true},
 	}
+	// a long queue behind a blocked handler
+	l = append(l, input{Servers: 3, Runs: 2, PerChild: 2, Local: 3, Feeders: 2, Work: []int{0}, Blocked: 0, Backlog: 180},
+		input{TCP: true, Servers: 3, Runs: 3, PerChild: 3, Local: 2, Feeders: 1, Work: []int{0, 50}, Blocked: 1, Backlog: 260})
 	// a handler blocked for a long time (watchdogs, time-outs on the dispatch): 11.5 s, thorough also 65 s
 	l = append(l, input{Servers: 3, Runs: 2, PerChild: 2, Local: 3, Feeders: 1, Work: []int{0}, Blocked: 0, Hold: 11500})
 	for i, a := range os.Args {
@@ -448,7 +489,7 @@ func main() {
 		Import: "Onet.Corr.C05",
 		Rule: "seeded scenarios: 3-5 servers (in-memory and TCP), 1-3 runs rooted on one server, children feeding over their own " +
 			"connections plus 1-4 goroutines injecting through Overlay.TransmitMsg, handler durations 0-1500us, optionally one run " +
-			"whose handler blocks until every other run has finished; non-trivial = more than 6 stamped events; distinct = distinct event trace",
+			"whose handler blocks until every other run has finished (in a third of those with 80-320 further messages queued behind it); non-trivial = more than 6 stamped events; distinct = distinct event trace",
 		Shard:    8,
 		Generate: generate,
 		Run:      run,
